@@ -544,6 +544,7 @@ func (p *parser) parsePrimary() (Expr, error) {
 // ---------------------------------------------------------------- contracts
 
 type Clause struct {
+	Group string // [#g]: the clause belongs to group g (its facts are only used for obligations of group g)
 	OnlyProps []string // when set: obligations of this clause are generated only for these properties
 	Kind string // requires ensures modifies invariant decreases
 	Loop int
@@ -790,6 +791,7 @@ func (ss *SpecSet) parseFile(path, pkg string) error {
 				return fail(fmt.Errorf("clause outside func block"))
 			}
 			name := ""
+			group := ""
 			var only []string
 			if strings.HasPrefix(rest, "[") {
 				if k := strings.Index(rest, "]"); k > 0 {
@@ -800,13 +802,18 @@ func (ss *SpecSet) parseFile(path, pkg string) error {
 						only = strings.Split(strings.TrimSpace(name[a+1:]), ",")
 						name = strings.TrimSpace(name[:a])
 					}
+					// [#g] or [label #g]: clause group
+					if a := strings.Index(name, "#"); a >= 0 {
+						group = strings.TrimSpace(name[a+1:])
+						name = strings.TrimSpace(name[:a])
+					}
 				}
 			}
 			e, err := parseExpr(rest)
 			if err != nil {
 				return fail(err)
 			}
-			c := &Clause{Kind: kw, Src: rest, E: e, Line: where, Name: name, Pkg: pkg, OnlyProps: only}
+			c := &Clause{Kind: kw, Src: rest, E: e, Line: where, Name: name, Pkg: pkg, OnlyProps: only, Group: group}
 			if kw == "requires" {
 				cur.Requires = append(cur.Requires, c)
 			} else {
@@ -874,11 +881,18 @@ func (ss *SpecSet) parseFile(path, pkg string) error {
 			if f[1] != "invariant" && f[1] != "decreases" && f[1] != "exit" {
 				return fail(fmt.Errorf("bad loop clause kind %s", f[1]))
 			}
+			lgroup := ""
+			if strings.HasPrefix(body, "[#") {
+				if k := strings.Index(body, "]"); k > 0 {
+					lgroup = strings.TrimSpace(body[2:k])
+					body = strings.TrimSpace(body[k+1:])
+				}
+			}
 			e, err := parseExpr(body)
 			if err != nil {
 				return fail(err)
 			}
-			cur.Loops[n] = append(cur.Loops[n], &Clause{Kind: f[1], Loop: n, Src: body, E: e, Line: where})
+			cur.Loops[n] = append(cur.Loops[n], &Clause{Kind: f[1], Loop: n, Src: body, E: e, Line: where, Group: lgroup})
 		case "inline":
 			cur.Inline = true
 		case "pure":
